@@ -571,6 +571,13 @@ class Executor(object):
         k = self.loop_counter[-1].get(id(node))
         if k is None:
             self._undecided("loop not indexed")
+        # a spec may describe the loop it belongs to (names called / mentioned in the body): loops are then found by that description, so that
+        # swapping the branches of an if/else, which renumbers the loops, does not attach an invariant to the wrong loop
+        described = [(kk, sp) for (f, kk), sp in self.loop_specs.items() if f == fn and getattr(sp, "match", None) is not None]
+        if described:
+            hits = [(kk, sp) for (kk, sp) in described if sp.match(node)]
+            if len(hits) == 1:
+                return hits[0][1], hits[0][0]
         spec = self.loop_specs.get((fn, k))
         if spec is None:
             self._undecided("loop #%d of %s has no invariant" % (k, fn))
